@@ -145,6 +145,11 @@ def check_kbuild(run: Any, texts: list[str]) -> None:
             elif (mo["cl"], mo["co"]) != (k["cl1"], k["co1"]):
                 diff = f"counters afterwards: model {(mo['cl'], mo['co'])} vs build {(k['cl1'], k['co1'])}"
         run.count("K-build:" + ("ok" if diff is None else "DIFF"))
+        bdefs = [it[1] for it in k["bp"] if it[0] == "lab"]
+        odefs = [it[1] for it in k["out"] if it[0] == "lab"]
+        run.count("K-build premise (the blueprint defines each label once):" + ("ok" if len(set(bdefs)) == len(bdefs) else "no"))
+        if len(set(bdefs)) == len(bdefs) and len(set(odefs)) != len(odefs) and diff is None:
+            diff = "the expansion defines a label twice although the blueprint defines each label once"
         labs = sum(1 for it in k["bp"] if it[0] == "lab")
         jmps = sum(1 for it in k["bp"] if it[0] == "jmp")
         rets = sum(1 for it in k["bp"] if it[0] == "op" and it[1] == "Return")
